@@ -115,7 +115,9 @@ def handleCr (o : Op) : Option String := do
   let pcert ← optInt o "pcert"
   match createResponse t signer styp with
   | none => pure "create-err"
-  | some r => pure (showRes (parseResponse (factsOf r 0 issuer) pcert issuer.isSome) false)
+  | some r =>
+    -- `idh=1`: CertID = (hash OID, H(issuer subject), H(issuer key)) for the template's IssuerHash (field mapping)
+    pure ("idh=1 " ++ showRes (parseResponse (factsOf r 0 issuer) pcert issuer.isSome) false)
 
 def showReq : ReqRes → String
   | .errAsn1 => "err:other"
